@@ -77,7 +77,7 @@ func zzParamsFor(method string) []byte {
 		return vJSON(&initializeParamsV2{InitializeParams: InitializeParams{ProtocolVersion: vStringAmong("initVersion", zzC06Versions...)}})
 	case notificationInitialized:
 		return vJSON(&InitializedParams{})
-	case methodPing:
+	case methodPing, zzCustomMethod:
 		return vJSON(&PingParams{})
 	case methodSetLevel:
 		return vJSON(&SetLoggingLevelParams{Level: "debug"})
@@ -101,6 +101,8 @@ func zzParamsFor(method string) []byte {
 	return nil // methods for which missing params are fine
 }
 
+const zzCustomMethod = "acme/search"
+
 func zzC06Methods() []string {
 	var ms []string
 	for m := range serverMethodInfos {
@@ -116,6 +118,12 @@ func zzC06Gate() {
 		InitializedHandler: func(context.Context, *InitializedRequest) { env.initdCalls++ },
 	})
 	srv.receivingMethodHandler_ = zzC06Recorder
+	// the application has registered a method of its own (AddReceivingCustomMethod): it lives in the server's table,
+	// not in the package-level one, and is gated like every other method
+	cerr := AddReceivingCustomMethod[*PingParams, *emptyResult](srv, zzCustomMethod, func(context.Context, *ServerSession, *PingParams) (*emptyResult, error) {
+		return &emptyResult{}, nil
+	})
+	vAssert(cerr == nil, "C06.custom-method-registered")
 	ss := &ServerSession{server: srv}
 	keepaliveStopped := 0
 	ss.keepaliveCancel = func() { keepaliveStopped++ } // keep-alive is running (Server.Connect started it)
@@ -132,7 +140,7 @@ func zzC06Gate() {
 	ss.state.InitializeParams, ss.state.InitializedParams = initParams, initdParams
 
 	// arbitrary request
-	method := vStringAmong("method", zzC06Methods()...)
+	method := vStringAmong("method", append(zzC06Methods(), zzCustomMethod)...)
 	known := vRankIsMember(method)
 	req := &jsonrpc.Request{Method: method}
 	isCall := vBool("hasID")
